@@ -411,9 +411,15 @@ def _arange(interp, *args, **kw):
 
 def _full(interp, shape, val, kind):
     eng = _eng()
+    item_shape = ()
     if isinstance(shape, tuple):
         if len(shape) != 1:
-            raise eng.Unsupported("n-d zeros/ones with symbolic shape")
+            # n-d array: a stack of opaque event payloads, all equal to the fill payload
+            item_shape = tuple(shape[1:])
+            fill = elem_fn(f"filled_{kind}")(z3.Const("fill!payload", Elem))
+            r = arr_new(interp, to_z3(shape[0]), lambda k: fill, "elem")
+            r.item_shape = item_shape
+            return r
         shape = shape[0]
     return arr_new(interp, to_z3(shape), lambda k: val, kind)
 
